@@ -107,16 +107,14 @@ impl Hsts {
     }
 }
 
-/// how a sub-table is written
+/// how a sub-table is written (`Table` is the form doc/configure.md shows for listener HSTS:
+/// `[listeners.hsts]` after the `[[listeners]]` entry)
 #[derive(Clone, Copy, Debug, PartialEq, Eq)]
 pub enum Syntax {
     /// `[parent.child]` after the parent's plain keys
     Table,
     /// `child = { ... }`
     Inline,
-    /// listener HSTS exactly as doc/configure.md prints it: a bare `[hsts]` header after the
-    /// `[[listeners]]` entry
-    DocumentedBareHsts,
 }
 
 /// an answer template: inline literal or `file://` path (body = the file's content)
@@ -434,7 +432,6 @@ impl Model {
         }
         o.push('\n');
         let mut ls = String::new();
-        let mut bare_hsts_used = false;
         for l in &self.listeners {
             ls.push_str("[[listeners]]\n");
             let mut p: Vec<(String, String)> = Vec::new();
@@ -473,22 +470,10 @@ impl Model {
                     let _ = writeln!(ls, "{} = {}", toml_str(k), a.toml_value);
                 }
             }
-            if let Some(h) = &l.hsts {
-                match l.hsts_syntax {
-                    Syntax::Table => {
-                        ls.push_str("[listeners.hsts]\n");
-                        for (k, v) in h.pairs() {
-                            let _ = writeln!(ls, "{k} = {v}");
-                        }
-                    }
-                    Syntax::DocumentedBareHsts if !bare_hsts_used => {
-                        bare_hsts_used = true;
-                        ls.push_str("\n[hsts]\n");
-                        for (k, v) in h.pairs() {
-                            let _ = writeln!(ls, "{k} = {v}");
-                        }
-                    }
-                    _ => {}
+            if let (Some(h), Syntax::Table) = (&l.hsts, l.hsts_syntax) {
+                ls.push_str("[listeners.hsts]\n");
+                for (k, v) in h.pairs() {
+                    let _ = writeln!(ls, "{k} = {v}");
                 }
             }
             ls.push('\n');
@@ -600,20 +585,9 @@ impl Model {
             }
             cs.push('\n');
         }
-        // a bare `[hsts]` header swallows every following key: the listener section carrying it
-        // has to come last
-        if self.clusters_first || bare_hsts_used {
-            if bare_hsts_used {
-                // the bare table must be the very last thing of the listener it follows: listeners
-                // after it would still be fine (they open a new `[[listeners]]`), clusters too
-            }
-            if self.clusters_first {
-                o.push_str(&cs);
-                o.push_str(&ls);
-            } else {
-                o.push_str(&ls);
-                o.push_str(&cs);
-            }
+        if self.clusters_first {
+            o.push_str(&cs);
+            o.push_str(&ls);
         } else {
             o.push_str(&ls);
             o.push_str(&cs);
